@@ -53,7 +53,13 @@ def check_case(case, stats=None):
     snap = res.snap
     root = snap['wf'][res.wf_ex_id]
     errs = [t for t in snap['task'].values() if t['state'] == 'ERROR']
-    if root['state'] != 'ERROR' or not errs:
+    live = False
+    if root['state'] == 'RUNNING' and errs and sim.W.inflight and \
+            case.get('async_parent'):
+        # a parallel branch (asynchronous action) keeps the root running:
+        # rerun while the enclosing workflow is still active
+        live = True
+    if (root['state'] != 'ERROR' and not live) or not errs:
         if stats:
             stats.counters['skipped_run_did_not_fail'] += 1
         # negative case: a non-ERROR task cannot be rerun via the API guard;
@@ -145,6 +151,14 @@ def check_case(case, stats=None):
         enginerun.run_until_quiet(sched, 800)
         if mode == 'skip':
             break
+    for _round in range(4):
+        if not sim.W.inflight:
+            break
+        for aid in sorted(sim.W.inflight):
+            sim.W.inflight.pop(aid, None)
+            sim.call(cl.on_action_complete, aid,
+                     sim.ml_actions.Result(data='async-done'))
+        enginerun.run_until_quiet(sched, 800)
     final = sim.snapshot()
     res.snap = final
     res.errors = sim.W.errors
@@ -174,6 +188,7 @@ def check_case(case, stats=None):
             else:
                 ob[tname] = [new]
         cb['outcomes'] = ob
+        cb['complete_async_at_end'] = True
         hb = history.run_history(cb, observe=False)
         rows_b = _strip(enginerun.canon_rows(hb.res, error_output=False),
                         {tname})
@@ -220,11 +235,14 @@ def check_case(case, stats=None):
             for case_task in _all_tasks(case['prog']).values())
         if nested:
             tg.append('rerun_in_subworkflow')
+        if live:
+            tg.append('rerun_while_parent_running')
         if is_wi:
             tg.append('rerun_with_items')
         if reruns > 1:
             tg.append('repeated_rerun')
-        nontriv = nested or bool(is_wi) or reruns > 1 or downstream_join
+        nontriv = nested or bool(is_wi) or reruns > 1 or downstream_join \
+            or live
         stats.case(runner.fp([case['prog'], tname, mode, new, reset,
                               res.sched_taken]), nontriv, sorted(set(tg)),
                    common.sample_of(c, res, {'rerun_task': tname,
@@ -291,6 +309,52 @@ def _negative(case, c, h, stats):
     return viol
 
 
+def gen_live(D, G):
+    """A sub-workflow whose task fails while a parallel asynchronous
+    branch keeps the enclosing workflow(s) running."""
+    depth = D.int(1, 2)
+
+    def wf(name, tasks, order):
+        return {'name': name, 'type': 'direct', 'tasks': tasks,
+                'order': order, 'input': {}, 'defaults': None,
+                'output': None, 'lang': 'yaql'}
+
+    def T(**kw):
+        t = G.new_task()
+        t['form'] = {'action': 'noop'}
+        t.update(kw)
+        return t
+    root_tasks = {
+        'a': T(action='std.async_noop'),
+        'c': T(workflow='sub0'),
+        'after': T()}
+    root_tasks['c']['on-success'] = [{'to': 'after', 'guard': None}]
+    if D.bool(0.4):
+        root_tasks['c']['publish'] = {'p_c': 'tok-c'}
+    subs = []
+    if depth == 1:
+        st = {'s0_0': T(), 's0_1': T()}
+        st['s0_0']['on-success'] = [{'to': 's0_1', 'guard': None}]
+        subs.append(wf('sub0', st, ['s0_0', 's0_1']))
+        fail = D.choice(['s0_0', 's0_1'])
+    else:
+        st = {'s0_0': T(workflow='sub1'), 's0_b': T(action='std.async_noop')
+              if D.bool(0.5) else T()}
+        subs.append(wf('sub0', st, ['s0_0', 's0_b']))
+        st1 = {'s1_0': T()}
+        subs.append(wf('sub1', st1, ['s1_0']))
+        fail = 's1_0'
+    prog = wf('wf', root_tasks, ['a', 'c', 'after'])
+    prog['subs'] = subs
+    outc = {'a': [['never']], 'c': [['ok', 'a']], 'after': [['ok', 'a']],
+            's0_0': [['ok', 'a']], 's0_1': [['ok', 'a']],
+            's0_b': [['never']] if depth == 2 and
+            subs[0]['tasks']['s0_b'].get('action') else [['ok', 'a']],
+            's1_0': [['ok', 'a']]}
+    outc[fail] = [['err', 'boom-' + fail]]
+    return prog, outc
+
+
 def strategy(max_tasks=6):
     from hypothesis import strategies as st
     from mv.gen import workflows as G
@@ -303,11 +367,18 @@ def strategy(max_tasks=6):
         F = G.feats(with_items=True, async_actions=False, cycles=False,
                     expr_failures=False, partial_joins=False,
                     state_commands=False, defaults=False, wi_subwf=False)
-        if D.bool(0.45):
+        async_parent = D.bool(0.3)
+        if async_parent:
+            F = dict(F, async_actions=True, async_p=0.25)
+        if D.bool(0.25):
+            prog, outc = gen_live(D, G)
+            async_parent = True
+        elif D.bool(0.45) or async_parent:
             prog, outc = G.gen_nested(D, F, max_tasks)
         else:
             prog, outc = G.gen_direct(D, F, max_tasks)
         return {'prog': prog, 'outcomes': outc, 'input': {},
+                'async_parent': async_parent,
                 'sched': enginerun.gen_schedule(D, max_devs=4),
                 'sched2': enginerun.gen_schedule(D, max_devs=3),
                 'salt': D.int(0, 20), 'pick': D.int(0, 3),
